@@ -40,18 +40,19 @@ func add(rootGoitPath, path string, index *store.Index) error {
 	cleanedRelPath := strings.ReplaceAll(relPath, `\`, "/") // replace backslash with slash
 	byteRelPath := []byte(cleanedRelPath)
 
-	// update index
-	isUpdated, err := index.Update(rootGoitPath, object.Hash, byteRelPath)
-	if err != nil {
-		return fmt.Errorf("fail to update index: %w", err)
-	}
-	if !isUpdated {
+	// nothing to do if the same entry is already registered
+	if _, entry, isFound := index.GetEntry(byteRelPath); isFound && entry.Hash.Compare(object.Hash) {
 		return nil
 	}
 
 	// write object to file
 	if err := object.Write(rootGoitPath); err != nil {
 		return fmt.Errorf("fail to write object: %w", err)
+	}
+
+	// update index
+	if _, err := index.Update(rootGoitPath, object.Hash, byteRelPath); err != nil {
+		return fmt.Errorf("fail to update index: %w", err)
 	}
 
 	return nil
